@@ -22,7 +22,7 @@ RULE = ('cases = (entry point, seeded tables with <=12 right rows / candidate ro
         'compared with n_jobs=1; presentation variants (row permutation of either table, index '
         'relabelling, added columns, repeated call); fixed case list digested in processes with '
         'PYTHONHASHSEED in {0,1,4242,31337}; split_table driven under its contract for all len<=200 '
-        'x k<=64. Non-trivial = the baseline result has at least one row; distinct = (entry, seed, '
+        'x k<=64; LARGE planted tables (1100 to 4100 rows) under n_jobs 1/3/8 and permutations. Non-trivial = the baseline result has at least one row; distinct = (entry, seed, '
         'variant).')
 ASSUMPTIONS = ['joblib threading backend executes the same job functions on the same chunks as loky '
                '(loky is sampled separately)', 'py_stringmatching tokenizers are trusted']
